@@ -664,6 +664,62 @@ def reuse_of_half_closed(ctx, rng):
     return case, reqs, impl
 
 
+def stale_object_collected(ctx, rng):
+    """Channel A gets id X and is closed by both sides (released), but the application keeps the dead object; the
+    counter comes round (moved by hand) and B legitimately gets X; then A is dropped and garbage collected while B is
+    open; the counter comes round to X once more.  B must stay registered and X must not be handed out again.
+    Returns (case, model requests, real replies)."""
+    import gc
+    rig = Rig(True)
+    counter, ids = gen_layout(rng, False)
+    ids = [i for i in ids if (i - counter) % M24 > 6]
+    rig.seed(counter, ids)
+    lst = ",".join(map(str, ids)) or "-"
+    reqs, impl = ["init %d %s" % (counter, lst)], ["ok"]
+    x, c = rig.local_open(True)
+    reqs.append("local")
+    impl.append("%d %d" % (x, c))
+    a = rig.held.pop(x)
+    a._handle_close(None)                       # both CLOSEs exchanged: A is closed and released …
+    reqs.append("del %d" % x)
+    impl.append("ok")
+    released = rig.t._channels.get(x) is None
+    graveyard = [a]                             # … but the application still holds the dead object
+    del a
+    rig.t._channel_counter = x                  # the counter comes round
+    reqs.append("init %d %s" % (x, lst))
+    impl.append("ok")
+    x2, c2 = rig.local_open(True)               # B legitimately gets X
+    reqs.append("local")
+    impl.append("%d %d" % (x2, c2))
+    b = rig.held.get(x2)
+    graveyard.clear()                           # now the application drops A
+    gc.collect()
+    still = b is not None and rig.t._channels.get(x2) is b
+    rig.t._channel_counter = x                  # … and the counter comes round once more
+    reqs.append("init %d %s" % (x, ",".join(map(str, sorted(ids + [x2])))))
+    impl.append("ok")
+    x3, c3 = rig.local_open(True)
+    reqs.append("local")
+    impl.append("%d %d" % (x3, c3))
+    case = {"scenario": "dead channel object collected after its id was re-assigned", "counter": counter,
+            "sentinels": ids[:30], "id": x, "released_after_both_closes": released, "id_of_B": x2,
+            "B_still_registered_after_A_was_collected": still, "next_id_handed_out": x3}
+    ctx.case(("stale-object", counter, tuple(ids)), True)
+    ctx.dist("stale-object-scenarios")
+    if x2 == x and not still:
+        ctx.fail("live-channel-removed-by-a-collected-dead-object", case,
+                 "collecting the dead Channel object that once had id %d removed the live channel now registered under "
+                 "that id from the channel map" % x)
+    for sig, detail in rig.problems[:3]:
+        ctx.fail(sig + ":after-dead-object-collected", case, detail)
+    if x3 == x2 and b is not None and not b.closed:
+        ctx.fail("id-in-use:after-dead-object-collected", case, "id %d handed out while channel B holds it" % x3)
+    reqs.append("live")
+    impl.append(",".join(map(str, rig.keys())) or "-")
+    return case, reqs, impl
+
+
 def gated_allocators(ctx, rng):
     """Two allocators, the first stopped (sys.settrace) between `_next_channel`'s map lookup and its counter
     increment — but only if it does NOT hold the transport lock there (a holder cannot be overtaken).  On the code
@@ -833,6 +889,11 @@ def run(ctx):
         spans.append((len(all_reqs), len(reqs)))
         all_reqs += reqs
         cases.append((case, impl))
+    for _ in range(40 if ctx.thorough else 8):
+        case, reqs, impl = stale_object_collected(ctx, rng)
+        spans.append((len(all_reqs), len(reqs)))
+        all_reqs += reqs
+        cases.append((case, impl))
     for _ in range(60 if ctx.thorough else 20):
         case, reqs, impl = reuse_of_half_closed(ctx, rng)
         spans.append((len(all_reqs), len(reqs)))
@@ -870,7 +931,10 @@ META = {
               "stay pairwise distinct and 24-bit (live_distinct_24bit), every open channel stays in the map under peer "
               "OPEN_FAILURE / OPEN_CONFIRMATION messages naming any id, so allocation never returns an open channel's id "
               "(open_channels_registered, alloc_never_returns_open_id), the counter is assigned only by _next_channel and "
-              "never moves backwards (counter_written_only_by_next_channel — AST fact, counter_never_moves_backwards), an id held by _parse_channel_open between its "
+              "never moves backwards (counter_written_only_by_next_channel — AST fact, counter_never_moves_backwards), entries "
+              "leave the map only through the close paths of the registered channel, never from a finaliser "
+              "(entries_removed_only_by_close_paths — AST tables; scenario: a dead object collected after its id was "
+              "re-assigned), an id held by _parse_channel_open between its "
               "two lock regions is never handed out again (pending_id_reserved) and no registration overwrites a live "
               "channel (no_collision). The model's nextChannel is proved equal to the Lean kernel translated from the "
               "source of Transport._next_channel on every run (model_eq_generated); every call site of _next_channel "
